@@ -755,7 +755,7 @@ def eval_history(chk, cls, init, seq, chans):
 
 # ----------------------------------------------------------------------
 # Part L: two / three LIVE objects of one class, configured differently, used in turn
-# Part E: error paths -- rejected calls raise and leave the object as it was
+# Part E: invalid calls -- free as calls; afterwards the object must be coherent with what it reports
 # ----------------------------------------------------------------------
 L_CONFIGS = {
     "EnhancedBD": [dict(metric=None), dict(metric="naive", ns=1), dict(metric="naive", ns=2),
